@@ -197,4 +197,22 @@ def c08(tier, seed):
                 exhaustive=True)
 
 
-CHECKS = {'C04': c04, 'C08': c08, 'C09': c09, 'C19': c19, 'C10': c10, 'C01': c01, 'C02': c02, 'C03': c03, 'C05': c05, 'C06': c06, 'C12': c12}
+
+def c07(tier, seed):
+    t = 'quick' if tier == 'quick' else 'thorough'
+    return dict(stages=[Stage('endtoend', mc=('EndToEndMC', 'EndToEnd_%s.cfg' % t), emit=('EndToEndMC', 'EndToEnd_%s_emit.cfg' % t),
+                              driver='endtoend', trace=('EndToEndTrace', 'EndToEndTrace.cfg'),
+                              deviations={'UuidIds': 'EndToEndTrace_dev_UuidIds.cfg'},
+                              nontrivial=lambda tr: len(tr['ev']) >= 3)],
+                rule='client programs in every notation (call, __call__, proxy attribute, hand-built send, notify, batch add / '
+                     '__call__ / proxy / __getitem__, batch notify mixes) x methods that return / raise a registered typed error / '
+                     'an unregistered code / an arbitrary exception x no / positional / named arguments x 4 id generators x strict '
+                     'on/off x sync/async client x sync/async dispatcher (full product for single calls, 4 combinations for '
+                     'batches of length 1..%d); non-trivial = the request reached the dispatcher and the caller got an outcome'
+                     % (3 if tier == 'quick' else 4),
+                assumptions=ASSUME_CLIENT + ['"the value a direct invocation returns" is fixed by construction of the registered '
+                                             'functions (they return their received arguments)'],
+                exhaustive=True)
+
+
+CHECKS = {'C04': c04, 'C07': c07, 'C08': c08, 'C09': c09, 'C19': c19, 'C10': c10, 'C01': c01, 'C02': c02, 'C03': c03, 'C05': c05, 'C06': c06, 'C12': c12}
